@@ -104,7 +104,8 @@ def part_stress(s):
         if not (np.all(v >= 0) and np.all(np.isfinite(v))):
             bad("nonnegative", "negative or non-finite stress for unit DOF %d" % k, 1.0)
     # homogeneity
-    for sc_ in (-1.0, 3.0, 1e-3):
+    # scale ladder: six decades down and up to stresses of order 1e12 Pa (the property's magnitude range): linearity has no ceiling
+    for sc_ in (-1.0, 3.0, 1e-3, 1e-6, 30.0, 1e3, 3e4, -1e5):
         val += 1
         v = vm(sc_ * generic)
         ref_ = v0
